@@ -7,15 +7,22 @@ CHECK = {
     "quick": {"shards": 8, "timeout": 900},
     "thorough": {"shards": 16, "timeout": 3600},
     "required_categories": ["float", "double", "method_cholesky", "method_svd", "method_weighted", "precond_general", "precond_graded_nearly_diagonal",
-                            "precond_diagonal", "history_with_shrink", "problem_written_through_kept_references", "problem_at_exact_buffer_capacity", "history_with_growth", "estimate_size_1", "estimate_size_8"],
+                            "precond_diagonal", "history_with_shrink", "problem_written_through_kept_references", "problem_at_exact_buffer_capacity", "history_with_growth", "estimate_size_1", "estimate_size_8",
+                            "constructed_default_then_setEstimateSize", "constructed_for_another_estimate_size_then_setEstimateSize", "constructed_with_estimate_size",
+                            "estimate_size_changed_in_history", "history_continues_on_copy_constructed", "history_continues_on_copy_assigned",
+                            "history_continues_on_move_constructed", "history_continues_on_move_assigned"],
     "required_oracles": ["normal_equations.cholesky", "normal_equations.svd", "normal_equations.weighted", "agrees_with_qr",
-                         "affine_preconditioner_applied", "affine_preconditioner_applied.componentwise", "cholesky_svd_agree", "history_independent"],
+                         "affine_preconditioner_applied", "affine_preconditioner_applied.componentwise", "cholesky_svd_agree", "history_independent",
+                         "copy_reproduces_last_answer"],
     "required_counters": ["problems_checked"],
     "rule": "case = history of 2..12 problems on ONE LeastSquares<float|double> object of estimate size 1..8: data size m..500 "
             "going up and down, J = U S V^T with prescribed cond(J) (cond(JtJ) < 1e6) and overall scale 1e-6..1e6, Y in range / "
             "slightly / far out of range, method {Cholesky, SVD, weighted}, optional affine preconditioner (diagonal or general A, b), "
             "buffers filled element-wise through getJ/getY/getW and rows beyond the current size poisoned with 1e30; each problem is "
-            "also solved by the other un-weighted path and by a fresh solver; non-trivial = history in which the data size both "
+            "also solved by the other un-weighted path and by a fresh solver; the object is built by one of three routes (sized constructor, "
+            "default constructor + setEstimateSize, constructor for another estimate size + setEstimateSize), its estimate size is changed "
+            "by setEstimateSize inside 12 % of the steps, and after 15 % of the steps the history continues on a copy-constructed / "
+            "copy-assigned / move-constructed / move-assigned object while the source gets an unrelated problem or is destroyed; non-trivial = history in which the data size both "
             "shrinks and grows",
     "level_text": "exploration: the real solver is driven through 4e3 (quick) / 6e5 (thorough) generated problem histories "
                   "(about 7 problems each); every answer is checked against the long-double normal equations / QR solution within "
@@ -24,7 +31,7 @@ CHECK = {
     "level_note": ASAN_NOTE,
     "technique": "runtime monitoring: sanitizer build + long-double QR reference + differential (fresh vs reused object, Cholesky vs SVD) monitors over generated histories",
     "assumptions": ["bound G = 16 eps (cond(JtJ)|JtY| + sqrt(n)|J||Y| + |JtJ||x|); problems with 16 eps cond >= 1e-1 (float beyond cond ~5e3) are counted as vacuous, not as checked",
-                    "the estimate size of an object is fixed at construction (the statement varies the data size)"],
+                    "'problems of varying sizes solved with one solver object' is read as varying data sizes and, through the public setEstimateSize, estimate sizes"],
 }
 
 # additionally: a reduced workload under valgrind memcheck (uninitialised-value use in the solver's
